@@ -62,45 +62,11 @@ def parseExpr (ts : List (Tok Prim)) : Option (List (List (List XP))) :=
     | some (l, []) => some l
     | _ => none
 
-/-- evaluate the expression (plus the default -print) on one entry -/
-def evalRefEntry (l : List (List (List XP))) (start : Bytes) (v : Visit Attr) (out : Bytes) : EvalOut × Bytes :=
-  let s0 : ES := ⟨{ out := out }, false, false, 0⟩
-  let r := if l.isEmpty then (true, s0) else refL (sem start v) (·.quit) l false s0
-  let r := if actL Prim.isAction l || r.2.quit || !r.1 then r else sem start v (.pathOut [] [10]) r.2
-  (⟨r.2.prune, r.2.quit, r.2.exit⟩, r.2.gs.out)
-
 structure RefRes where
   out : Bytes
   ret : Nat
   diags : Nat
   deriving Repr
-
-def refRoots (c : RefCfg) (sorted : Bool) (l : List (List (List XP))) :
-    List (Bytes × Option (Node Attr)) → Acc Bytes → Acc Bytes
-  | [], acc => acc
-  | (_, none) :: rest, acc => refRoots c sorted l rest (diag acc)
-  | (start, some n) :: rest, acc =>
-    let n := if sorted then sortNode n else n
-    let r := refRoot c (evalRefEntry l start) n ⟨acc.st, 0, acc.diags⟩
-    let acc' : Acc Bytes := ⟨r.2.st, if r.2.ret != 0 then r.2.ret else acc.ret, r.2.diags⟩
-    if r.1 then acc' else refRoots c sorted l rest acc'
-
-/-- `none` = the command line is not a sentence of the grammar: find must reject it -/
-def refRun (follow : Follow) (roots : List (Bytes × Option (Node Attr))) (args : List Arg) : Option RefRes :=
-  let c := args.foldl applyArg { follow := follow }
-  match parseExpr (args.map Arg.tok') with
-  | none => none
-  | some l =>
-    let r := refRoots (refCfg c) c.sorted l roots ⟨[], 0, 0⟩
-    some ⟨r.st, r.ret, r.diags⟩
-
-/-- the predicate: stdout equal to the reference, exit status zero iff the reference's is;
-    a rejected command line prints nothing and exits non-zero -/
-def predFind (follow : Follow) (roots : List (Bytes × Option (Node Attr))) (args : List Arg)
-    (obsSt : Nat) (obsOut : Bytes) : Bool :=
-  match refRun follow roots args with
-  | none => obsSt != 0 && obsOut.isEmpty
-  | some r => obsOut == r.out && ((obsSt == 0) == (r.ret == 0))
 
 /-! ### reference for the -exec actions (C08, C09) -/
 
@@ -127,6 +93,14 @@ def dirArgRef (start : Bytes) (rpath : List Name) : Bytes × Option Bytes :=
       | some [] => none
       | some d => some d))
 
+/-- the status record the follow mode selects (property text of C13): lstat where the view does not
+    follow, stat falling back to lstat for a dangling link where it does -/
+def recordSpecR (v : Visit Attr) : Option (Char × Rec) :=
+  let a := attrOf v
+  if followAt v.follow v.ent.depth then
+    (if a.sty == 'L' then none else if a.sty == 'N' then some (a.lty, a.l) else some (a.sty, a.s))
+  else some (a.lty, a.l)
+
 /-- the primaries with the exec actions read from the property text: `-exec … ;` runs the command
     with `{}` replaced and is true iff it exits 0; `-exec … +` only records the path it is reached on -/
 def semRef (start : Bytes) (v : Visit Attr) (p : Prim) (s : ES) : Bool × ES :=
@@ -139,6 +113,32 @@ def semRef (start : Bytes) (v : Visit Attr) (p : Prim) (s : ES) : Bool × ES :=
   | .execMulti _ dir _ _ _ =>
     let (arg, cwd) := if dir then dirArgRef start v.ent.rpath else (path, none)
     (true, { s with gs := { s.gs with execs := s.gs.execs ++ [⟨[arg], cwd⟩] } })
+  | .typeIs c => ((match recordSpecR v with | some (t, _) => t == c | none => false), s)
+  | .xtype c =>
+    -- the opposite choice: the link itself where the view follows, through the link where it does not
+    let a := attrOf v
+    let t : Option Char :=
+      if followAt v.follow v.ent.depth then some a.lty
+      else if a.sty == 'L' then none else if a.sty == 'N' then some a.lty else some a.sty
+    ((match t with | some t => t == c | none => c == 'l'), s)
+  | .perm k m =>
+    ((match recordSpecR v with
+      | some (_, r) =>
+        (match k with
+         | .exact => r.perm == m
+         | .atLeast => (List.range 12).all fun i => !(m.testBit i) || r.perm.testBit i
+         | .anyOf => m == 0 || (List.range 12).any fun i => m.testBit i && r.perm.testBit i)
+      | none => false), s)
+  | .statCmp f c => ((match recordSpecR v with | some (_, r) => c.matches (r.field f) | none => false), s)
+  | .empty =>
+    ((match recordSpecR v with
+      | some (t, r) =>
+        if t == 'f' then r.size == 0
+        else if t == 'd' then (match v.ent.node with | .dir _ _ _ _ kids => kids.isEmpty | _ => false)
+        else false
+      | none => false), s)
+  | .samefile dev ino => ((match recordSpecR v with | some (_, r) => r.dev == dev && r.ino == ino | none => false), s)
+  | .lname l => ((match recordSpecR v with | some (t, _) => t == 'l' && (attrOf v).target == l | none => false), s)
   | .delete =>
     -- the reference only records where the action is reached: the path, then (for a real
     -- directory, marked by cwd = some []) the paths of its entries
@@ -173,6 +173,18 @@ def refRunX (follow : Follow) (roots : List (Bytes × Option (Node Attr))) (args
   | some l =>
     let r := refRootsX (refCfg c) c.sorted l roots ⟨{ script := script }, 0, 0⟩
     some (⟨r.st.out, r.ret, r.diags⟩, r.st.execs)
+
+/-- reference run without exec scripts -/
+def refRun (follow : Follow) (roots : List (Bytes × Option (Node Attr))) (args : List Arg) : Option RefRes :=
+  (refRunX follow roots args []).map (·.1)
+
+/-- the predicate: stdout equal to the reference, exit status zero iff the reference's is;
+    a rejected command line prints nothing and exits non-zero -/
+def predFind (follow : Follow) (roots : List (Bytes × Option (Node Attr))) (args : List Arg)
+    (obsSt : Nat) (obsOut : Bytes) : Bool :=
+  match refRun follow roots args with
+  | none => obsSt != 0 && obsOut.isEmpty
+  | some r => obsOut == r.out && ((obsSt == 0) == (r.ret == 0))
 
 /-- records of an output stream: NUL-terminated if a NUL occurs, else newline-terminated -/
 def records (out : Bytes) : List Bytes :=
